@@ -172,25 +172,26 @@ func checkC05(ck *Check) {
 	fn := a.CalcDelta
 	ctx := ck.P.NewCtx(fn)
 	g := ck.groupTerm(fn)
-	// the successful return: int(math.Max(X, Y))
-	var ret *ssa.Return
-	for _, b := range fn.Blocks {
-		if r, ok := b.Instrs[len(b.Instrs)-1].(*ssa.Return); ok {
-			if et := ctx.Term(r.Results[1]); et.Kind == "const" && et.Name == "nil" {
-				if _, isC := r.Results[0].(*ssa.Const); !isC {
-					ret = r
-				}
-			}
+	// the successful returns, with tail calls of helpers looked through and merged values split by
+	// the edge they come from: every case is (path condition, delta) — int(math.Max(X, Y)) or the
+	// constant 1 of the no-cache branch
+	cases := ck.returnCases(ctx, FTrue, 0)
+	var computed, constant []retCase
+	for _, rc := range cases {
+		if len(rc.Res) != 2 {
+			continue
+		}
+		if et := rc.Res[1]; !(et.Kind == "const" && et.Name == "nil") {
+			continue
+		}
+		if rc.Res[0].Kind == "const" {
+			constant = append(constant, rc)
+		} else {
+			computed = append(computed, rc)
 		}
 	}
-	if ret == nil || g == nil {
+	if len(computed) == 0 || g == nil {
 		ck.fail("C05.R2", "calcScaleUpDelta/return", "", funcID(fn), "a successful return of the computed delta", "not found", "")
-		return
-	}
-	rt := ctx.Term(ret.Results[0])
-	okSkel := rt.Kind == "conv" && rt.Args[0].Kind == "call" && rt.Args[0].Name == "math.Max" && len(rt.Args[0].Args) == 2
-	ck.cond(okSkel, "C05.R3", "calcScaleUpDelta/skeleton", ck.P.instrPos(ret), funcID(fn), "delta = int(math.Max(needed_cpu, needed_mem)) — both resources, converted only after rounding", rt.String(), "one resource is ignored or the conversion truncates an un-rounded value")
-	if !okSkel {
 		return
 	}
 	t := &Term{Kind: "conv", Name: "float64", Args: []*Term{ck.optTerm(g, "scale_up_threshold_percent")}}
@@ -201,17 +202,9 @@ func checkC05(ck *Check) {
 		}
 	}
 	n := lenOf("len", paramTerm(nodesParam))
-	sentinelAtom := func(f *Formula) bool {
-		for _, at := range f.Atoms() {
-			if at.Kind == "cmp" && at.Name == "==" && strings.Contains(at.String(), "1.79769e+308") {
-				return true
-			}
-		}
-		return false
-	}
 	var sentinel *Formula
-	for _, b := range fn.Blocks {
-		for _, at := range ctx.BlockPC(b).Atoms() {
+	for _, rc := range cases {
+		for _, at := range rc.PC.Atoms() {
 			if at.Kind == "cmp" && at.Name == "==" && strings.Contains(at.String(), "1.79769e+308") {
 				if sentinel == nil {
 					sentinel = Atom(at)
@@ -221,7 +214,6 @@ func checkC05(ck *Check) {
 			}
 		}
 	}
-	_ = sentinelAtom
 	// parameters by position: the two float64 are (cpu %, mem %), the two quantities (cpu request,
 	// mem request); the cached node size is read from the state's cpuCapacity / memCapacity fields
 	pctP := paramsOfKind(fn, isFloat64)
@@ -236,85 +228,81 @@ func checkC05(ck *Check) {
 		ck.fail("C05.R2", "calcScaleUpDelta/params", "", funcID(fn), "calcScaleUpDelta takes (cpu %, mem %) and (cpu request, mem request)", fmt.Sprintf("%d floats, %d quantities", len(pctP), len(reqP)), "")
 		return
 	}
-	mentionsRes := func(ph *ssa.Phi, i int) bool {
-		for _, e := range ph.Edges {
-			et := ctx.Term(e)
-			if mentionsParam(et, pctP[i]) || mentionsParam(et, reqP[i]) {
-				return true
-			}
+	nNormal, nZero := [2]int{}, [2]int{}
+	seenKey := map[string]int{}
+	uniq := func(k string) string {
+		seenKey[k]++
+		if seenKey[k] > 1 {
+			return fmt.Sprintf("%s#%d", k, seenKey[k])
 		}
-		return false
+		return k
 	}
-	for i, res := range []string{"cpu", "mem"} {
-		// the operand of the max that is computed from this resource's parameters
-		var opnd *Term
-		for _, x := range rt.Args[0].Args {
-			if ph, ok := x.Val.(*ssa.Phi); ok && x.Kind == "phi" && mentionsRes(ph, i) && !mentionsRes(ph, 1-i) {
-				opnd = x
+	for _, rc := range computed {
+		rt := rc.Res[0]
+		pos := ck.P.instrPos(rc.Ret)
+		okSkel := rt.Kind == "conv" && rt.Args[0].Kind == "call" && rt.Args[0].Name == "math.Max" && len(rt.Args[0].Args) == 2
+		ck.cond(okSkel, "C05.R3", uniq("calcScaleUpDelta/skeleton"), pos, funcID(fn), "delta = int(math.Max(needed_cpu, needed_mem)) — both resources, converted only after rounding", rt.String(), "one resource is ignored or the conversion truncates an un-rounded value")
+		if !okSkel {
+			continue
+		}
+		isZeroBranch := false
+		if sentinel != nil {
+			isZeroBranch, _, _ = Entails(rc.PC, sentinel)
+		}
+		for i, res := range []string{"cpu", "mem"} {
+			mentions := func(x *Term, j int) bool { return mentionsParam(x, pctP[j]) || mentionsParam(x, reqP[j]) }
+			// the operand of the max that is computed from this resource's parameters
+			var et *Term
+			for _, x := range rt.Args[0].Args {
+				if mentions(x, i) && !mentions(x, 1-i) {
+					et = x
+				}
 			}
-		}
-		if opnd == nil {
-			ck.fail("C05.R2", "calcScaleUpDelta/"+res, ck.P.instrPos(ret), funcID(fn), "one operand of the max is computed from the "+res+" percentage and request only", rt.String(), "")
-			continue
-		}
-		key := "calcScaleUpDelta/" + res
-		ph, ok := opnd.Val.(*ssa.Phi)
-		if !ok {
-			ck.fail("C05.R2", key, ck.P.instrPos(ret), funcID(fn), "needed_"+res+" merges the from-zero and the normal branch", opnd.String(), "")
-			continue
-		}
-		b := ph.Block()
-		nNormal, nZero := 0, 0
-		for ei, e := range ph.Edges {
-			et := ctx.Term(e)
+			key := "calcScaleUpDelta/" + res
+			if et == nil {
+				ck.fail("C05.R2", uniq(key), pos, funcID(fn), "one operand of the max is computed from the "+res+" percentage and request only", rt.String(), "")
+				continue
+			}
 			if !(et.Kind == "call" && et.Name == "math.Ceil" && len(et.Args) == 1) {
-				ck.fail("C05.R3", fmt.Sprintf("%s/edge%d/ceil", key, ei), ck.P.instrPos(ph), funcID(fn), "needed_"+res+" is rounded up with math.Ceil", et.String(), "rounding down or to nearest under-provisions")
+				ck.fail("C05.R3", uniq(key+"/ceil"), pos, funcID(fn), "needed_"+res+" is rounded up with math.Ceil", et.String(), "rounding down or to nearest under-provisions")
 				continue
 			}
 			rf := ratOf(et.Args[0])
-			edge := ctx.edgePC(b.Preds[ei], b)
-			isZeroBranch := false
-			if sentinel != nil {
-				isZeroBranch, _, _ = Entails(edge, sentinel)
-			}
 			if isZeroBranch {
-				nZero++
+				nZero[i]++
 				ri, cf := reqP[i], capF[i]
 				req := leafBy(rf, milliOf(func(t *Term) bool { return mentionsParam(t, ri) }))
 				cp := leafBy(rf, milliOf(func(t *Term) bool {
 					return t.contains(func(x *Term) bool { return x.Kind == "field" && x.Name == cf })
 				}))
 				if req == nil || cp == nil {
-					ck.fail("C05.R2", key+"/from-zero", ck.P.instrPos(ph), funcID(fn), "from zero: 100·request/(cached node "+res+" · threshold)", rf.String(), "operands are not the "+res+" request and the cached node "+res+" capacity")
+					ck.fail("C05.R2", uniq(key+"/from-zero"), pos, funcID(fn), "from zero: 100·request/(cached node "+res+" · threshold)", rf.String(), "operands are not the "+res+" request and the cached node "+res+" capacity")
 					continue
 				}
 				want := rfInt(100).mul(rfLeaf(req)).div(rfLeaf(cp).mul(ratOf(t)))
-				ck.cond(rf.equal(want), "C05.R2", key+"/from-zero", ck.P.instrPos(ph), funcID(fn), "from zero: needed_"+res+" ≡ ⌈100·req/(cap₁·t)⌉", rf.String(), "the from-zero formula differs from the documented one")
+				ck.cond(rf.equal(want), "C05.R2", uniq(key+"/from-zero"), pos, funcID(fn), "from zero: needed_"+res+" ≡ ⌈100·req/(cap₁·t)⌉", rf.String(), "the from-zero formula differs from the documented one")
 			} else {
-				nNormal++
+				nNormal[i]++
 				p := paramTerm(pctP[i])
 				if p == nil {
-					ck.fail("C05.R2", key+"/normal", ck.P.instrPos(ph), funcID(fn), "normal: n·(p−t)/t", rf.String(), "the "+res+" percentage is not an operand")
+					ck.fail("C05.R2", uniq(key+"/normal"), pos, funcID(fn), "normal: n·(p−t)/t", rf.String(), "the "+res+" percentage is not an operand")
 					continue
 				}
 				want := rfLeaf(n).mul(ratOf(p).add(ratOf(t), -1)).div(ratOf(t))
-				ck.cond(rf.equal(want), "C05.R2", key+"/normal", ck.P.instrPos(ph), funcID(fn), "normal: needed_"+res+" ≡ ⌈n·(p−t)/t⌉ with n = len(untainted nodes), t = scale_up_threshold_percent", rf.String(), "the delta formula differs from the documented one")
+				ck.cond(rf.equal(want), "C05.R2", uniq(key+"/normal"), pos, funcID(fn), "normal: needed_"+res+" ≡ ⌈n·(p−t)/t⌉ with n = len(untainted nodes), t = scale_up_threshold_percent", rf.String(), "the delta formula differs from the documented one")
 			}
 		}
-		ck.cond(nNormal >= 1 && nZero >= 1, "C05.R2", key+"/branches", ck.P.instrPos(ph), funcID(fn), "both the normal and the from-zero branch define needed_"+res, fmt.Sprintf("%d normal, %d from-zero", nNormal, nZero), "")
+	}
+	for i, res := range []string{"cpu", "mem"} {
+		ck.cond(nNormal[i] >= 1 && nZero[i] >= 1, "C05.R2", "calcScaleUpDelta/"+res+"/branches", "", funcID(fn), "both the normal and the from-zero branch define needed_"+res, fmt.Sprintf("%d normal, %d from-zero", nNormal[i], nZero[i]), "")
 	}
 	// no-cache branch: return 1 under sentinel ∧ (cpuCapacity.IsZero() ∨ memCapacity.IsZero())
 	{
 		okv := false
-		for _, b := range fn.Blocks {
-			if r, ok := b.Instrs[len(b.Instrs)-1].(*ssa.Return); ok {
-				if k, isC := r.Results[0].(*ssa.Const); isC && k.Value != nil && k.Value.String() == "1" {
-					pc := ctx.BlockPC(b)
-					if sentinel != nil {
-						if imp, _, _ := Entails(pc, sentinel); imp && strings.Contains(pc.String(), "IsZero") {
-							okv = true
-						}
-					}
+		for _, rc := range constant {
+			if rc.Res[0].Name == "1" && sentinel != nil {
+				if imp, _, _ := Entails(rc.PC, sentinel); imp && strings.Contains(rc.PC.String(), "IsZero") {
+					okv = true
 				}
 			}
 		}
@@ -336,6 +324,130 @@ func checkC05(ck *Check) {
 	}
 	// R9 sufficient unless the maximum is reached
 	ck.onlyTheMaximumClamps("C05.R9")
+	// R10 a node untainted counts as one node brought into service: the untaint candidates are
+	// uncordoned tainted nodes (the classifier's guard, decided as C01.R5)
+	ck.classification("C05.R10", map[int]string{1: "tainted"})
+}
+
+// retCase: one way a function returns — the path condition (helpers' conditions conjoined) and the
+// result terms read in the frame of the function the enumeration started from.
+type retCase struct {
+	PC  *Formula
+	Res []*Term
+	Ctx *Ctx
+	Ret *ssa.Return
+}
+
+// returnCases enumerates the returns of ctx's function. A return that hands on all results of a
+// static repo callee (`return h(…)`) is replaced by the callee's own cases with its parameters
+// bound; a result that merges values at one join point is split into one case per incoming edge.
+func (ck *Check) returnCases(ctx *Ctx, prefix *Formula, depth int) []retCase {
+	var out []retCase
+	fn := ctx.fn
+	for _, b := range fn.Blocks {
+		r, ok := b.Instrs[len(b.Instrs)-1].(*ssa.Return)
+		if !ok {
+			continue
+		}
+		pc := And(prefix, ctx.BlockPC(b))
+		if sat, err := Satisfiable(pc); err == nil && !sat {
+			continue
+		}
+		// tail call
+		var tail *ssa.Call
+		for i, rv := range r.Results {
+			var c *ssa.Call
+			switch x := rv.(type) {
+			case *ssa.Extract:
+				if x.Index == i {
+					c, _ = x.Tuple.(*ssa.Call)
+				}
+			case *ssa.Call:
+				if len(r.Results) == 1 {
+					c = x
+				}
+			}
+			if c == nil || (tail != nil && tail != c) {
+				tail = nil
+				break
+			}
+			tail = c
+		}
+		if tail != nil && depth < 3 {
+			if h := tail.Common().StaticCallee(); h != nil && ck.P.inRepo(h) && h.Blocks != nil && h != fn && h.Signature.Results().Len() == len(r.Results) {
+				args := make([]*Term, len(tail.Common().Args))
+				for i, av := range tail.Common().Args {
+					args[i] = ctx.Term(av)
+				}
+				ch := ctx.child(h, tail, args)
+				ch.depth = 0
+				out = append(out, ck.returnCases(ch, pc, depth+1)...)
+				continue
+			}
+		}
+		res := make([]*Term, len(r.Results))
+		for i, rv := range r.Results {
+			res[i] = ctx.Term(rv)
+		}
+		// split merged values: all φ of one block, by incoming edge
+		var join *ssa.BasicBlock
+		for _, t := range res {
+			t.walk(func(x *Term) bool {
+				if ph, ok := x.Val.(*ssa.Phi); ok && x.Kind == "phi" && ph.Parent() == fn && join == nil && len(ph.Edges) == len(ph.Block().Preds) {
+					if l := innermostLoop(fn, ph.Block()); l == nil || l.Header != ph.Block() {
+						join = ph.Block()
+					}
+				}
+				return true
+			})
+		}
+		if join == nil || !join.Dominates(b) {
+			out = append(out, retCase{PC: pc, Res: res, Ctx: ctx, Ret: r})
+			continue
+		}
+		for ei, pred := range join.Preds {
+			sub := make([]*Term, len(res))
+			for i, t := range res {
+				sub[i] = rewriteTermDeep(t, func(x *Term) *Term {
+					if ph, ok := x.Val.(*ssa.Phi); ok && x.Kind == "phi" && ph.Block() == join {
+						return ctx.Term(ph.Edges[ei])
+					}
+					return nil
+				})
+			}
+			epc := And(pc, ctx.edgePC(pred, join))
+			if sat, err := Satisfiable(epc); err == nil && !sat {
+				continue
+			}
+			out = append(out, retCase{PC: epc, Res: sub, Ctx: ctx, Ret: r})
+		}
+	}
+	return out
+}
+
+// rewriteTermDeep applies f top-down (a replaced sub-term is not visited again).
+func rewriteTermDeep(t *Term, f func(*Term) *Term) *Term {
+	if t == nil {
+		return nil
+	}
+	if r := f(t); r != nil {
+		return r
+	}
+	changed := false
+	args := make([]*Term, len(t.Args))
+	for i, a := range t.Args {
+		args[i] = rewriteTermDeep(a, f)
+		if args[i] != a {
+			changed = true
+		}
+	}
+	if !changed {
+		return t
+	}
+	c := *t
+	c.Args = args
+	c.key, c.str = "", ""
+	return &c
 }
 
 func (ck *Check) sentinelAgreement(rule string) {
@@ -437,6 +549,23 @@ func (ck *Check) cachedNodeSize(rule string) {
 				if at.Kind == "cmp" && at.Name == "<" && at.Args[0].Name == "0" && at.Args[1].Kind == "len" {
 					if imp, _, _ := Entails(pc, Atom(at)); imp {
 						guarded = true
+					}
+				}
+			}
+			if !guarded {
+				// the same guard in another spelling (an early return under len == 0, 1 ≤ len, …)
+				seen := map[string]bool{}
+				for _, at := range pc.Atoms() {
+					if at.Kind != "cmp" {
+						continue
+					}
+					for _, x := range at.Args {
+						if x.Kind == "len" && !seen[x.Key()] {
+							seen[x.Key()] = true
+							if imp, _, err := ctx.EntailsLinear(pc, []LinFact{{A: zeroTerm(types.Typ[types.Int]), B: x, K: -1, Text: "0 < len"}}); err == nil && imp {
+								guarded = true
+							}
+						}
 					}
 				}
 			}
@@ -729,6 +858,9 @@ func checkC13(ck *Check) {
 			}
 		}
 	}
+	// the totals the percentages are taken of are the folds' results, untouched: nothing in the scan
+	// body writes to the two locals between the fold and their use
+	ck.totalsUntouched("C13.R1")
 	// R2 composition order
 	ck.podComposition("C13.R2", sched)
 	// R3 folds
@@ -743,6 +875,32 @@ func checkC13(ck *Check) {
 	// R7 "its pods", "untainted uncordoned nodes": of the whole cluster
 	ck.clusterView("C13.R7")
 	ck.cacheSynced("C13.R8")
+}
+
+// totalsUntouched: the locals of the scan body that hold the results of the two totalling
+// functions are written once (by that call) and afterwards only read.
+func (ck *Check) totalsUntouched(rule string) {
+	a := ck.A
+	ck.bodyInstrs(a.Scan, func(_ *Ctx, fn *ssa.Function, in ssa.Instruction) {
+		al, ok := in.(*ssa.Alloc)
+		if !ok {
+			return
+		}
+		f := allocInitCallee(al)
+		if f == nil || (f.Name() != "CalculatePodsRequestedUsage" && f.Name() != "CalculateNodesCapacity") {
+			return
+		}
+		inits := 0
+		bad := ck.writtenThrough(al, nil, 0, map[ssa.Value]bool{}, func(st *ssa.Store) bool {
+			inits++
+			return inits == 1
+		})
+		pos, got := ck.P.instrPos(al), ""
+		if bad != nil {
+			pos, got = ck.P.instrPos(bad), bad.String()+" in "+funcID(bad.Parent())
+		}
+		ck.cond(bad == nil, rule, "scan/totals-untouched:"+f.Name(), pos, funcID(fn), "the result of "+f.Name()+" is only read after the fold", got, "the totals the utilisation is taken of are adjusted after the fold: they are no longer the sums over the listed pods / nodes")
+	})
 }
 
 // siteKeyInstr: stable-ish key for a non-call instruction: ordinal among the function's stores.
@@ -1019,7 +1177,108 @@ func (ck *Check) commutativeFold(rule string, fn *ssa.Function, accField string)
 			ck.cond(okv, rule, key, ck.P.instrPos(st), funcID(fn), accField+"."+leaf+" += f(element) for every element, unconditionally (commutative fold ⇒ order-independent)", v.String(), why)
 		}
 	}
+	// the step of the fold in a helper handed the accumulator's address (a method of the totals'
+	// type called once per element): the same shape, read in the helper with its parameters bound
+	for b := range loop.Blocks {
+		for _, in := range b.Instrs {
+			call, ok := in.(*ssa.Call)
+			if !ok {
+				continue
+			}
+			h := call.Common().StaticCallee()
+			if h == nil || !ck.P.inRepo(h) || h.Blocks == nil {
+				continue
+			}
+			for ai, av := range call.Common().Args {
+				if _, isAlloc := av.(*ssa.Alloc); !isAlloc || ai >= len(h.Params) {
+					continue
+				}
+				acc := h.Params[ai]
+				args := make([]*Term, len(call.Common().Args))
+				for i, x := range call.Common().Args {
+					args[i] = ctx.Term(x)
+				}
+				ch := ctx.child(h, call, args)
+				ch.depth = 0
+				accT := ch.Term(acc)
+				for _, hb := range h.Blocks {
+					for _, hin := range hb.Instrs {
+						st, ok := hin.(*ssa.Store)
+						if !ok {
+							continue
+						}
+						path, root := fieldPathFrom(st.Addr)
+						if root != ssa.Value(acc) || len(path) < 2 || path[len(path)-2] != accField {
+							continue
+						}
+						leaf := path[len(path)-1]
+						key := fmt.Sprintf("%s/%s.%s", funcID(fn), accField, leaf)
+						okv, why := true, ""
+						var inc *Term
+						if bo, isAdd := st.Val.(*ssa.BinOp); isAdd && bo.Op == token.ADD {
+							for i, side := range []ssa.Value{bo.X, bo.Y} {
+								if ld, isLoad := side.(*ssa.UnOp); isLoad && ld.Op == token.MUL && sameFieldAddr(ld.X, st.Addr) {
+									inc = ch.Term([]ssa.Value{bo.Y, bo.X}[i])
+								}
+							}
+						}
+						switch {
+						case inc == nil:
+							okv, why = false, "the total is not updated with +=: "+ch.Term(st.Val).String()
+						case !strings.Contains(inc.String(), "elem("):
+							okv, why = false, "the added term does not depend on the current element"
+						case inc.contains(func(x *Term) bool { return x.Key() == accT.Key() }):
+							okv, why = false, "the added term depends on the running total"
+						}
+						if okv {
+							eqH, _, _ := Equivalent(ch.PC(st), FTrue)
+							eqC, _, _ := Equivalent(ctx.PC(call), body)
+							if !eqH || !eqC || innermostLoop(h, st.Block()) != nil {
+								okv, why = false, "the update is conditional: "+And(ctx.PC(call), ch.PC(st)).String()
+							}
+						}
+						if found[leaf] {
+							okv, why = false, "several updates of the same total in one iteration"
+						}
+						found[leaf] = true
+						ck.cond(okv, rule, key, ck.P.instrPos(st), funcID(fn), accField+"."+leaf+" += f(element) for every element, unconditionally (commutative fold ⇒ order-independent)", ch.Term(st.Val).String(), why)
+					}
+				}
+			}
+		}
+	}
 	ck.cond(found["Memory"] && found["MilliCPU"], rule, funcID(fn)+"/both", "", funcID(fn), "both resources are totalled", fmt.Sprint(found), "")
+}
+
+// fieldPathFrom: the field names leading from a root value (a parameter, a local) to addr.
+func fieldPathFrom(addr ssa.Value) ([]string, ssa.Value) {
+	var path []string
+	for {
+		fa, ok := addr.(*ssa.FieldAddr)
+		if !ok {
+			return path, addr
+		}
+		path = append([]string{fieldOfAddr(fa).Name()}, path...)
+		addr = fa.X
+	}
+}
+
+// sameFieldAddr: two field-address chains name the same location (same root value, same fields).
+func sameFieldAddr(a, b ssa.Value) bool {
+	for {
+		fa, okA := a.(*ssa.FieldAddr)
+		fb, okB := b.(*ssa.FieldAddr)
+		if okA != okB {
+			return false
+		}
+		if !okA {
+			return a == b
+		}
+		if fa.Field != fb.Field {
+			return false
+		}
+		a, b = fa.X, fb.X
+	}
 }
 
 // fieldPathOfAddr: field names from a local alloc root.
